@@ -82,6 +82,7 @@ class WsHarness(object):
         self.mw_calls = []
         self.first_disc_recv = None
         self.closing = False          # an application close() has started
+        self.bg_tasks = []
         self.blocked = False
         self.finished = False
         self._build()
@@ -178,8 +179,22 @@ class WsHarness(object):
                 self.ctx.ops_done += 1
                 if stop:
                     break
+            await self._join_bg()
         finally:
+            for t in self.bg_tasks:
+                if not t.done():
+                    t.cancel()
             self.script_done = True
+
+    async def _join_bg(self):
+        for t in list(self.bg_tasks):
+            if not t.done():
+                try:
+                    await t
+                except asyncio.CancelledError:
+                    if not t.cancelled():
+                        raise
+        self.bg_tasks = []
 
     async def _do(self, op, o, ws):
         kind = op[0]
@@ -215,6 +230,37 @@ class WsHarness(object):
         elif kind == 'pause':
             for _ in range(op[1]):
                 await asyncio.sleep(0)
+        elif kind == 'send_bg':
+            # a sender task running concurrently with the responder's receives
+            payload = op[1]
+
+            async def bg():
+                bo = Obs(('send', 'text', payload))
+                bo.pulled_before = self.conn.disconnect_pulled
+                bo.closed_before = self.app_closed or self.closing
+                bo.lost_before = self.conn.lost
+                bo.step = self.loop.app_steps
+                self.obs.append(bo)
+                try:
+                    await ws.send_text(payload)
+                    bo.kind = 'ok'
+                except asyncio.CancelledError:
+                    bo.kind = 'exc'
+                    bo.exc = 'CancelledError'
+                    raise
+                except Exception as ex:
+                    bo.kind = 'exc'
+                    bo.exc = type(ex).__name__
+                    bo.code = getattr(ex, 'code', None)
+                    if isinstance(ex, ferrors.WebSocketDisconnected):
+                        self.disc_reported = True
+                bo.pulled_after = self.conn.disconnect_pulled
+                self.ctx.event('op', 'bg', bo.brief())
+            t = asyncio.ensure_future(bg())
+            self.bg_tasks.append(t)
+            self.note('send_bg')
+        elif kind == 'join':
+            await self._join_bg()
         elif kind == 'recv_cancel':
             async def child():
                 self.in_recv += 1
@@ -248,6 +294,7 @@ class WsHarness(object):
             finally:
                 self.children.discard(t)
         elif kind == 'close':
+            await self._join_bg()
             self.closing = True
             try:
                 if len(op) > 2 and op[2] is not None:
